@@ -328,10 +328,80 @@ def c16_misc_oracles(ctx, rng):
     return out
 
 
+UNIT_PGNS = [130312, 130316, 130311, 130314, 127250, 130306, 128259, 127245, 127488]
+
+
+def c16_units_oracle(ctx, rng, only=None):
+    """Decoders with different preferred units alive at once (and one after the other) on the SAME payloads: what each
+    returns for a payload is what a decoder of its configuration returned for it the first time — never the result of
+    another instance's (or its own earlier) unit conversion."""
+    from nmea2000.consts import PhysicalQuantities as PQ
+    Dec = H._impl()[0]
+    units = {PQ.TEMPERATURE: "C", PQ.PRESSURE: "Bar", PQ.ANGLE: "deg", PQ.SPEED: "kts"}
+    units2 = {PQ.TEMPERATURE: "F", PQ.PRESSURE: "PSI"}
+
+    def run(order, pkts):
+        decs = {"plain": Dec(), "units": Dec(preferred_units=units), "units2": Dec(preferred_units=units2)}
+        first, log = {}, []
+        for step, (who, k) in enumerate(order):
+            if who == "new-plain":
+                decs["new-plain"] = Dec()
+            cfgname = "plain" if who == "new-plain" else who
+            try:
+                m = decs[who].decode_tcp(pkts[k])
+                o = None if m is None else (m.PGN, m.id, m.source, [(f.id, repr(f.value), f.unit_of_measurement, repr(f.raw_value))
+                                                                    for f in m.fields])
+            except Exception as e:  # noqa: BLE001
+                o = ("err", type(e).__name__)
+            log.append((who, k, o))
+            if (cfgname, k) not in first:
+                first[(cfgname, k)] = (step, o)
+            elif first[(cfgname, k)][1] != o:
+                s0, o0 = first[(cfgname, k)]
+                diff = ""
+                if isinstance(o, tuple) and isinstance(o0, tuple) and len(o) == 4 and len(o0) == 4:
+                    diff = "; ".join(f"{a[0]}: {a[1]} {a[2]} -> {b[1]} {b[2]}" for a, b in zip(o0[3], o[3]) if a != b)
+                return step, (f"payload {pkts[k].hex()} (PGN {H.pkt_fields(pkts[k])[0]}): decoder '{who}' returns at step {step} "
+                              f"something else than a decoder of the same configuration returned at step {s0} ({diff}); "
+                              f"steps so far: {[(w, i) for w, i, _ in log]}")
+        return None
+    if only is not None:
+        pk = [bytes.fromhex(x) for x in only["pkts"]]
+        return run([tuple(x) for x in only["order"]], pk)
+    for _ in range(ctx.n(12, 120)):
+        pkts = []
+        for _ in range(3):
+            pgn = rng.choice(UNIT_PGNS)
+            pkts.append(H.mk_pkt(pgn, rng.choice(H.SOURCES), 255, 3, bytes(rng.getrandbits(8) for _ in range(8))))
+        order = [("plain", 0), ("units", 0), ("units", 0), ("plain", 0), ("units2", 0), ("new-plain", 0)]
+        for _ in range(8):
+            order.append((rng.choice(["plain", "units", "units2", "new-plain"]), rng.randrange(len(pkts))))
+        r = run(order, pkts)
+        if r:
+            step = r[0]
+            order = order[:step + 1]
+            # shrink the order
+            i = 0
+            while i < len(order) - 1:
+                t = order[:i] + order[i + 1:]
+                if run(t, pkts):
+                    order = t
+                else:
+                    i += 1
+            r = run(order, pkts)
+            return {"key": "C16:units-of-one-instance-change-another", "kind": "c16-units", "what": r[1],
+                    "pkts": [x.hex() for x in pkts], "order": [list(x) for x in order]}
+    return None
+
+
 def search(ctx):
     rng = ctx.rng
     Dec, Enc, _, _ = H._impl()
     out, seen = [], set()
+    w = c16_units_oracle(ctx, rng)
+    if w:
+        seen.add(w["key"])
+        out.append(w)
     for w in c16_misc_oracles(ctx, rng):
         if w["key"] not in seen:
             seen.add(w["key"])
@@ -493,6 +563,11 @@ def mixed_entry_oracle(ctx, rng, only=None):
 
 def replay(ctx, data):
     w = data.get("witness", data)
+    if w.get("kind") == "c16-units":
+        r = c16_units_oracle(ctx, ctx.rng, only=w)
+        print("expected: a decoder returns for a payload what a decoder of its configuration returned for it before")
+        print("observed:", r[1] if r else "property holds on this input")
+        return r is not None
     k = w.get("kind")
     if k == "c16-mixed":
         r = mixed_entry_oracle(ctx, ctx.rng, only=w.get("pgn"))
